@@ -90,6 +90,10 @@ ALIASES = {"hemv": "symv", "hbmv": "sbmv", "trsv": "trmv", "tbsv": "tbmv", "geru
 # Fortran symbol -> (kb name)
 def lookup(sym):
     """'dgemv_' -> 'gemv'; 'izamax_' -> 'amax'; 'dznrm2_' -> 'nrm2'; None if unknown"""
+    if sym.startswith("tbl:"):
+        b = sym[4:]
+        b = ALIASES.get(b, b)
+        return b if b in ROUTINES else None
     s = sym.rstrip("_")
     for pre in ("dz", "iz", "id", "zd", "d", "z"):
         if s.startswith(pre):
